@@ -5,6 +5,7 @@ import (
 	"go/constant"
 	"go/token"
 	"go/types"
+	"sync"
 
 	"golang.org/x/tools/go/ssa"
 
@@ -55,15 +56,15 @@ func (e *Exec) top(t *Thread) *Frame { return t.Frames[len(t.Frames)-1] }
 func (e *Exec) pushCall(t *Thread, clo *Closure, args []Value, call ssa.Value, rk retKind) *Frame {
 	fn := clo.Fn
 	if fn.Blocks == nil {
-		e.unsupported("call of external function %s", fn.String())
+		e.unsupported("call of external function %s", fnName(fn))
 	}
 	if len(t.Frames) > 400 {
-		e.unsupported("call depth exceeded in %s", fn.String())
+		e.unsupported("call depth exceeded in %s", fnName(fn))
 	}
-	e.Stats.Funcs[fn.String()] = true
-	f := &Frame{Fn: fn, L: make(map[ssa.Value]Value, 16), Block: fn.Blocks[0], Ret: rk, CallInstr: call}
+	e.Stats.Funcs[fnName(fn)] = true
+	f := &Frame{Fn: fn, L: make(map[ssa.Value]Value, frameSize(fn)), Block: fn.Blocks[0], Ret: rk, CallInstr: call}
 	if len(args) != len(fn.Params) {
-		panic(fmt.Sprintf("arity mismatch calling %s: %d vs %d", fn.String(), len(args), len(fn.Params)))
+		panic(fmt.Sprintf("arity mismatch calling %s: %d vs %d", fnName(fn), len(args), len(fn.Params)))
 	}
 	for i, p := range fn.Params {
 		f.L[p] = copyVal(args[i])
@@ -88,12 +89,38 @@ func (e *Exec) get(f *Frame, v ssa.Value) Value {
 	}
 	r, ok := f.L[v]
 	if !ok {
-		panic(fmt.Sprintf("undefined SSA value %s (%T) in %s", v.Name(), v, f.Fn.String()))
+		panic(fmt.Sprintf("undefined SSA value %s (%T) in %s", v.Name(), v, fnName(f.Fn)))
 	}
 	return r
 }
 
+var frameSizes sync.Map // *ssa.Function -> int
+
+// frameSize is the number of SSA values a frame of fn can hold (parameters, free variables and
+// value-defining instructions), capped: the frame map is allocated once at this size.
+func frameSize(fn *ssa.Function) int {
+	if n, ok := frameSizes.Load(fn); ok {
+		return n.(int)
+	}
+	n := len(fn.Params) + len(fn.FreeVars)
+	for _, b := range fn.Blocks {
+		for _, in := range b.Instrs {
+			if _, ok := in.(ssa.Value); ok {
+				n++
+			}
+		}
+	}
+	if n > 256 {
+		n = 256
+	}
+	frameSizes.Store(fn, n)
+	return n
+}
+
 func (e *Exec) constVal(c *ssa.Const) Value {
+	if v, ok := e.constCache[c]; ok {
+		return v
+	}
 	t := c.Type()
 	if c.Value == nil {
 		return e.zero(t)
@@ -102,14 +129,20 @@ func (e *Exec) constVal(c *ssa.Const) Value {
 	case *types.Basic:
 		switch {
 		case u.Info()&types.IsBoolean != 0:
-			return e.C.BoolConst(constant.BoolVal(c.Value))
+			v := e.C.BoolConst(constant.BoolVal(c.Value))
+			e.constCache[c] = v
+			return v
 		case u.Info()&types.IsInteger != 0:
+			var r Value
 			if u.Info()&types.IsUnsigned != 0 {
 				v, _ := constant.Uint64Val(constant.ToInt(c.Value))
-				return e.C.BVConst(width(u), v)
+				r = e.C.BVConst(width(u), v)
+			} else {
+				v, _ := constant.Int64Val(constant.ToInt(c.Value))
+				r = e.C.BVConst(width(u), uint64(v))
 			}
-			v, _ := constant.Int64Val(constant.ToInt(c.Value))
-			return e.C.BVConst(width(u), uint64(v))
+			e.constCache[c] = r
+			return r
 		case u.Info()&types.IsFloat != 0:
 			if width(u) == 32 {
 				v, _ := constant.Float32Val(c.Value)
@@ -438,7 +471,7 @@ func (e *Exec) jump(f *Frame, to *ssa.BasicBlock) {
 			if len(to.Instrs) > 0 {
 				site = e.posOf(to.Instrs[len(to.Instrs)-1])
 			}
-			panic(pathEnd{kind: "unwind", detail: "loop bound " + fmt.Sprint(e.Cfg.Unwind), site: site + " in " + f.Fn.String()})
+			panic(pathEnd{kind: "unwind", detail: "loop bound " + fmt.Sprint(e.Cfg.Unwind), site: site + " in " + fnName(f.Fn)})
 		}
 	}
 	// phis
